@@ -85,6 +85,30 @@ func fpCorpus(universe uint64) ([]*fpFile, error) {
 		}
 		files = append(files, ff)
 	}
+	// two wide packages (more functions than any worker-pool or chunking threshold
+	// a refactoring is likely to pick)
+	for wi, nf := range []int{67, 101} {
+		r := gogen.NewRand(universe*977 + uint64(wi) + 5)
+		fs := gogen.GenFuncs(r, nf, 3, true)
+		for k := range fs {
+			fs[k].Name = fmt.Sprintf("%s_%d", fs[k].Name, k)
+		}
+		src := gogen.RenderFile("wide", fs, true, true)
+		root := filepath.Join(d, fmt.Sprintf("w%d", wi))
+		os.MkdirAll(filepath.Join(root, "wide"), 0o755)
+		os.WriteFile(filepath.Join(root, "go.mod"), []byte("module example.test/gen\n\ngo 1.23\n"), 0o644)
+		p := filepath.Join(root, "wide", "f0.go")
+		os.WriteFile(p, []byte(src), 0o644)
+		ff := &fpFile{path: p, src: src}
+		for s := 0; s < fpSlots; s++ {
+			pk, err := loadPackagesFromSource(p, src)
+			if err != nil {
+				return nil, fmt.Errorf("load %s: %w", p, err)
+			}
+			ff.pkgs[s] = pk
+		}
+		files = append(files, ff)
+	}
 	fpFiles = files
 	return files, nil
 }
@@ -128,7 +152,9 @@ func fpReference(files []*fpFile, fi, pi int, strict bool) (string, string) {
 	sim := vs.NewSim(vs.ModePark, vs.ReplayTape(nil, 0))
 	sim.MapOrderOn, sim.PoolOn = true, true
 	var out string
+	oldProcs := runtime.GOMAXPROCS(1) // the reference is the sequential execution
 	_, infra := vs.BubbleRun(fpT, sim, func() { out = callFP(files[fi].pkgs[0], fpPolicy[pi], strict) })
+	runtime.GOMAXPROCS(oldProcs)
 	if infra != "" {
 		return "", infra
 	}
@@ -287,6 +313,70 @@ func runC01(t *vs.Tape, cfg map[string]string) (res vs.Result) {
 		}
 	}
 	return
+}
+
+// ---- long-history configuration: one pooled canonicaliser, thousands of functions ----
+
+func runC01History(t *vs.Tape, cfg map[string]string) (res vs.Result) {
+	c := vs.Counters{}
+	res.Counters = c
+	files, err := fpCorpus(0)
+	if err != nil {
+		res.Infra = "corpus: " + err.Error()
+		return
+	}
+	fi := t.Intn(len(files), "file")
+	pi := t.Intn(2, "policy")
+	rs, err := FingerprintPackages(files[fi].pkgs[0], fpPolicy[pi], false)
+	if err != nil || len(rs) == 0 {
+		res.Infra = fmt.Sprintf("history corpus: %v", err)
+		return
+	}
+	n := []int{2000, 8000, 30000, 90000}[t.Weighted("history.n", 3, 3, 2, 1)]
+	sim := vs.NewSim(vs.ModeSingle, t)
+	sim.MapOrderOn, sim.PoolOn, sim.PoolSticky = true, true, true
+	vs.Attach(sim)
+	defer vs.Attach(nil)
+	first := map[string]string{}
+	for i := 0; i < n; i++ {
+		r := rs[i%len(rs)]
+		fn := r.GetSSAFunction()
+		if fn == nil {
+			continue
+		}
+		var g FingerprintResult
+		var pv any
+		func() {
+			defer func() { pv = recover() }()
+			g = GenerateFingerprint(fn, fpPolicy[pi], false)
+		}()
+		cur := g.Fingerprint + "\n" + g.CanonicalIR
+		if pv != nil {
+			cur = fmt.Sprintf("PANIC: %v", pv)
+		}
+		if f0, ok := first[r.FunctionName]; !ok {
+			first[r.FunctionName] = cur
+		} else if f0 != cur {
+			res.Violation = vs.Violationf("C01/history-dependent", "function %s (file %d, policy %d): analysis number %d by the same process (one pooled canonicaliser reused throughout) differs from its first analysis: %s", r.FunctionName, fi, pi, i, firstLineDiff(f0, cur))
+			break
+		}
+	}
+	c.Add("history_analyses", int64(n))
+	c.Add("pool_reuse", sim.C["pool_reuse"])
+	res.Digest = vs.Hash(fmt.Sprint(fi, pi, n))
+	res.Nontrivial = true
+	res.Sample = map[string]any{"file": fi, "policy": pi, "analyses_by_one_pooled_canonicaliser": n, "functions": len(rs)}
+	return
+}
+
+func TestVerifC01History(t *testing.T) {
+	fpT = t
+	defer func() {
+		if fpRoot != "" {
+			os.RemoveAll(fpRoot)
+		}
+	}()
+	vs.Main(t, vs.Engine{Property: "C01", Name: "fphistory", MaxTape: 20000, Run: runC01History})
 }
 
 func TestVerifC01(t *testing.T) {
